@@ -65,12 +65,12 @@ CHECKS = {
    ref="5/C16"),
  "C01": dict(level="fault_enumeration", engine="simdisk",
    technique="exhaustive crash-image enumeration (I/O boundaries x lost-write subsets x header tear offsets) over histories selected from an explicit-state BFS of the real implementation",
-   text="For one representative history per distinct I/O shape found by a BFS over transaction histories: every I/O boundary of the last operation, every subset of the un-synced page writes/truncates (all 2^p up to a cap), and every byte-prefix tear of a pending header write. Each image is reopened through the normal open path; the recovered header txid must be the last successful commit (or the commit in flight), root and every live page must match that transaction's model state byte for byte, and two probe transactions (allocate/write/commit; overwrite/free/allocate/commit/reopen) must leave every other recovered page unchanged.",
+   text="For one representative history per distinct I/O shape found by a BFS over transaction histories: every I/O boundary of the last operation, every subset of the un-synced page writes/truncates (all 2^p up to a cap), and every byte-prefix tear of a pending header write. Each image is reopened through the normal open path; the recovered header txid must be the last successful commit (or the commit in flight), root and every live page must match that transaction's model state byte for byte, and two probe transactions (allocate/write/commit; overwrite/free/allocate/commit/reopen) must leave every other recovered page unchanged. The same enumeration is applied to opens that change the maximum size (grow, shrink, unbounded, with and without preallocation) after seeds with free tails, fragmented free lists, overwrite mappings, full files and files living in their overflow area: every crash image of the open-time transactions is recovered by a plain open (limit must be the old or the new one) and by an open that asks for the new limit again (limit must be the new one).",
    note="Page-granular persistence except the 84-byte header; SyncNone excluded; crash points start after the file has been created; a write is durable once a later Sync completed. One history per I/O shape (shape = op kinds, target classes, pending-set size, coarse state features), not every history.",
    ref="5/C01"),
  "C04": dict(level="model_checking",
    technique="explicit-state BFS over allocation histories of the real implementation with an ownership oracle on every returned page id, plus an allocate-everything sweep in every reached state",
-   text="BFS over begin(+overflow)/Alloc/AllocN(2|7|avail|avail+1)/overwrite/free(first|middle|last|every other)/alloc-then-free-new/flush/commit/rollback/reopen histories on bounded and unbounded files. Every id returned by Alloc/AllocN is checked against the reference model (not live, not freed-committed, not allocated-unfreed, not an internal page per hook snapshot, distinct, >= 2); in every reached state a twin run allocates everything that is allocatable, writes it, commits and re-verifies every live page's self-identifying pattern. Start states: the empty file, hand-made seeds (free tail, fragmented, overwritten, full, overflow in use, inside an open overflow transaction) and the 575 harvested states of props/harvest.json (judged seed histories, multi-root search). After every commit the raw disk image is decoded by an independent decoder (engine/diskfmt): live pages, both free lists, free-list pages, mapping pages and overwrite pages must partition the page range, and no page below the file end may be owned by nobody.",
+   text="BFS over begin(+overflow)/Alloc/AllocN(2|7|avail|avail+1)/overwrite/free(first|middle|last|every other)/alloc-then-free-new/flush/commit/rollback/reopen histories on bounded and unbounded files. Every id returned by Alloc/AllocN is checked against the reference model (not live, not freed-committed, not allocated-unfreed, not an internal page per hook snapshot, distinct, >= 2); in every reached state a twin run allocates everything that is allocatable, writes it, commits and re-verifies every live page's self-identifying pattern. Start states: the empty file, hand-made seeds (free tail, fragmented, overwritten, full, overflow in use, inside an open overflow transaction, (thorough tier) fresh files whose first fill leaves 1, 2, 3 or 5 pages) and the 575 harvested states of props/harvest.json (judged seed histories, multi-root search). After every commit the raw disk image is decoded by an independent decoder (engine/diskfmt): live pages, both free lists, free-list pages, mapping pages and overwrite pages must partition the page range, and no page below the file end may be owned by nobody.",
    note="Depth-bounded; internal pages are taken from the library's own bookkeeping (hook snapshot), live pages from the independent model.",
    ref="5/C04"),
  "C07": dict(level="model_checking",
@@ -90,7 +90,7 @@ CHECKS = {
    ref="5/C11"),
  "C03": dict(level="model_checking",
    technique="explicit-state BFS over operation histories of the real implementation vs. reference model, plus bounded schedule enumeration of the background writer",
-   text="Breadth-first explicit-state search over every history of the page API alphabet (begin/alloc/write full|partial|load/free/flush/checkpoint/set-root/commit/rollback/reopen) up to a depth bound on several configurations, executed on the real (scheduler-instrumented) library over a simulated disk; after every transaction end and reopen a read transaction is compared byte-for-byte with a map-of-pages model, and inside the writing transaction every write is read back.",
+   text="Breadth-first explicit-state search over every history of the page API alphabet (begin/alloc/write full|partial|load/free/flush/checkpoint/set-root/commit/rollback/reopen) up to a depth bound on several configurations, executed on the real (scheduler-instrumented) library over a simulated disk, from the empty file and from seed states (two pages, overwritten pages, fragmented free list, 14 overwritten pages, a page freed while its contents live in an overwrite page); after every transaction end and reopen a read transaction is compared byte-for-byte with a map-of-pages model, and inside the writing transaction every write is read back.",
    note="Bounded: page contents from a 3-symbol alphabet, roles first/second/last, depth bound reported in evidence; background writer runs under the cooperative scheduler's default schedule in the BFS and under enumerated schedules in the writer-timing pass.",
    ref="5/C03"),
 }
